@@ -108,6 +108,8 @@ pub mod network;
 pub mod queue;
 pub mod queue_event;
 pub mod queue_peek;
+#[cfg(feature = "verif")]
+pub mod verif;
 
 use std::{
     cmp::Ordering,
@@ -453,6 +455,8 @@ pub fn sim_advanced(
 
     let mut network = NetworkBottleneck::new(args.network, Duration::from_secs(1), sq.max_pps);
 
+    #[cfg(feature = "verif")]
+    verif::reset();
     let mut sim_iterations = 0;
     let start_time = current_time;
     while let Some(next) = pick_next(sq, &mut client, &mut server, &mut network, current_time) {
@@ -558,6 +562,8 @@ pub fn sim_advanced(
             trace.push(n);
         }
 
+        #[cfg(feature = "verif")]
+        verif::event_processed();
         if args.max_trace_length > 0 && trace.len() >= args.max_trace_length {
             debug!(
                 "sim(): we done, reached max trace length {}",
@@ -793,6 +799,8 @@ fn do_internal_timer<M: AsRef<[Machine]>>(
     }
 
     assert!(machine.is_some(), "BUG: no internal action found");
+    #[cfg(feature = "verif")]
+    verif::log_fire(is_client, machine.unwrap().into_raw(), verif::FireKind::Timer, target);
 
     // create SimEvent with TimerEnd
     Some(SimEvent {
@@ -846,6 +854,8 @@ fn do_scheduled_action<M: AsRef<[Machine]>>(
     // no action found
     assert!(a.is_some(), "BUG: no action found");
     let a = a.unwrap();
+    #[cfg(feature = "verif")]
+    verif::log_fire_action(is_client, &a.action, target);
 
     // do the action
     match a.action {
